@@ -119,6 +119,26 @@ def adt_variants(F, adt_path):
     return [v['name'] for v in a['variants']]
 
 
+def norm_returned(t):
+    """A returned Result built by a combinator, rewritten to the explicit form the rules read:
+         X.map(f)      == Ok(f(X?))          X.and_then(f) == f(X?)          X.map_err(g)  == X
+       ('try', X) stands for the success value of X with the failure propagated (erased by detry / unwrap_try like `?`)."""
+    if not (isinstance(t, tuple) and t and t[0] == 'call'):
+        return t
+    sp = strip_generics(t[1])
+    if sp == 'core::result::Result::map' and len(t[2]) == 2:
+        v = _apply_callable(t[2][1], ('try', t[2][0]))
+        if v is not None:
+            return ('agg', 'core::result::Result', 'Ok', (v,), ('0',))
+    if sp == 'core::result::Result::and_then' and len(t[2]) == 2:
+        v = _apply_callable(t[2][1], ('try', t[2][0]))
+        if v is not None:
+            return norm_returned(v)
+    if sp == 'core::result::Result::map_err' and len(t[2]) == 2:
+        return norm_returned(t[2][0])
+    return t
+
+
 def ret_defs(tb, region=None):
     """(block, idx, term) for each whole assignment / call into _0 (optionally restricted to a block region)."""
     out = []
@@ -126,7 +146,7 @@ def ret_defs(tb, region=None):
         bi, si, kind, payload = d
         if region is not None and bi not in region:
             continue
-        out.append((bi, si, tb.def_term(0, d)))
+        out.append((bi, si, norm_returned(tb.def_term(0, d))))
     return out
 
 
@@ -371,7 +391,12 @@ def foreign_variants(F, adt_path):
 
 def unwrap_try(t):
     """Strip `?`:  Try::branch(x).Continue.0 -> x  (repeatedly, outermost)."""
-    while isinstance(t, tuple) and t and t[0] == 'vfield' and t[2] == 'Continue':
+    while isinstance(t, tuple) and t:
+        if t[0] == 'try':
+            t = t[1]
+            continue
+        if not (t[0] == 'vfield' and t[2] == 'Continue'):
+            break
         a = m_call(t[1], name='branch', trait='Try')
         if a is None:
             break
@@ -475,6 +500,8 @@ def detry(t):
     """Erase `?` everywhere in a term: Try::branch(x).Continue.0 -> x."""
     if not isinstance(t, tuple) or not t:
         return t
+    if t[0] == 'try':
+        return detry(t[1])
     if t[0] == 'vfield' and t[2] == 'Continue':
         a = m_call(t[1], name='branch', trait='Try')
         if a is not None:
